@@ -3,6 +3,7 @@
 (* Trace validation of the real USBTokenDetector / USBHandshakeDetector    *)
 (* against PktDet.  One record per clock cycle:                            *)
 (*   a, v, d, addr      rx_active, rx_valid, rx_data, device address       *)
+(*   rst                reset of the usb clock domain asserted this cycle  *)
 (*   ev                 events strobed in this cycle (sequence of          *)
 (*                      [k, x, y, z] records built from the strobes and    *)
 (*                      the field outputs observed in the same cycle)      *)
@@ -18,7 +19,7 @@ tvars == <<vars, tid, l, status>>
 
 ASSUME \A i \in 1..Len(Logs) : TLCSet(i, <<0, "ok">>)
 
-InputOf(r)  == [a |-> r.a, v |-> r.v, d |-> r.d, addr |-> r.addr]
+InputOf(r)  == [a |-> r.a, v |-> r.v, d |-> r.d, addr |-> r.addr, rst |-> r.rst]
 OutputOf(r) == [ev |-> r.ev, frame |-> r.frame, sel |-> r.sel]
 
 FailingP(r, p1) == IF EnvViolation(InputOf(r)) # "ok" THEN EnvViolation(InputOf(r))
